@@ -742,6 +742,14 @@ example : expectedSources [exSubvol, exBindSub] exBindSub = [b!"/my base/pkg dir
     expectedSources [exSubvol, exBindSub] exSubvol = [] := by
   decide
 
+/-- the root file system itself on a subvolume (`/@` mounted on `/`) and a bind of a directory
+    below it: the candidate is the clean path `/var/db/repos`, not `//var/db/repos` (seeded
+    change C12-agent5-3 joined the two by plain concatenation) -/
+def exRootSub : KMount := { exDisk with root := b!"/@", mp := b!"/" }
+def exBindRootSub : KMount := { exBind with root := b!"/@/var/db/repos" }
+example : expectedSources [exRootSub, exBindRootSub] exBindRootSub = [b!"/var/db/repos"] := by
+  decide
+
 example : exDisk.WF ∧ exBind.WF := by
   constructor <;> constructor <;> simp [TokenOK, KeyOK, IsB, exDisk, exBind]
 
